@@ -8,6 +8,7 @@ python3 tools/gen_isfinished.py /repo
 python3 tools/gen_opstate.py /repo
 python3 tools/gen_forms.py /repo
 python3 tools/gen_lazy.py /repo
+python3 tools/gen_bodies.py /repo
 # -k: a property file that no longer checks is reported by that property's own check, not here
 ( cd coq && coq_makefile -f _CoqProject -o Makefile >/dev/null 2>&1 && { timeout 3000 make -k -j16 >work_build.log 2>&1 || grep -E "^File|Error" work_build.log | head -20; } )
 python3 - <<'PY'
